@@ -204,29 +204,31 @@ PROPS = {
         "level_note": "Trusted: Lean kernel; SQLite; harness. Named runtime behaviour the model cannot exhibit: per-reference re-evaluation of RANDOM() by an SQL engine.",
     },
     "C07": {
-        "lean_modules": ["QrlewModel.Props.C07"],
+        "lean_modules": ["QrlewModel.Props.C07", "QrlewModel.Props.C07Tree"],
         "streams": [
             {"name": "sizes", "n_quick": 6000, "n_thorough": 200000},
+            {"name": "reltree", "n_quick": 4000, "n_thorough": 150000, "compare": True, "min_per_proc": 200},
             {"name": "sqlx", "n_quick": 30000, "n_thorough": 1500000, "compare": False, "min_per_proc": 500},
         ],
-        "rule": "sizes: Map (offset/limit), Join (4 kinds x unique flags) and Set (3 operators) nodes built through the builders over tables of size 0..1000: declared size vs the Lean size model. " + "sqlx: generated queries of the supported fragment over t1(a PK, b, c, d, e nullable), t2(a, f, g), t3(k unique, h, w unique float): projections with scalar expressions (arithmetic, abs, CASE, greatest, coalesce, upper), WHERE (comparisons, IN, AND/OR, text equality), DISTINCT, total ORDER BY with LIMIT/OFFSET, aggregations (sum/count/avg/min/max/count distinct, mixed aggregate-scalar items) grouped by column / expression, HAVING, INNER/LEFT/RIGHT/FULL joins ON (also disjunctions of equalities), USING, NATURAL, derived tables, CTEs, diamonds (one sub-query on both sides of a join or set operation, single- and multi-stage), UNION/UNION ALL/INTERSECT/EXCEPT, functions of unique columns, aliases that shadow input columns in GROUP BY / ORDER BY / WHERE / HAVING, shadowed table names, multi-branch CASE with overlapping conditions, the math and text functions the reader declares (sqrt, exp, ln, log2, log10, sin, cos, tan, round, trunc, sign, pow, lower, substr, ltrim, rtrim, ||, char_length, concat with 1..4 arguments), BETWEEN / LIKE / IS NULL / NOT predicates, projections of random() and of functions of it (executed with a seeded stream of distinct draws, not compared with the original); x conforming database instances (empty tables, boundary values, NULLs, duplicate and unmatched join keys, unique keys distinct); the relation rendered by the library is executed on SQLite next to the original text; non-trivial = non-empty result",
+        "rule": "reltree (model ≡ implementation): random trees of depth ≤ 3 (map with projections through -x / abs / x + k, WHERE, LIMIT / OFFSET; inner join on a key equality; UNION [ALL], INTERSECT, EXCEPT; GROUP BY one or two keys with count(*)) over three tables with declared sizes and UNIQUE columns, written as a chain of CTEs and compiled by the real reader: the declared size bound and UNIQUE flags of the result are compared with Qrlew.RelTree.sizeMax / uniq, the rows SQLite returns for the rendered relation with Qrlew.RelTree.eval (rows are not compared under LIMIT / OFFSET); on the implementation itself: row count ≤ declared size, flagged columns duplicate-free. sizes: Map (offset/limit), Join (4 kinds x unique flags) and Set (3 operators) nodes built through the builders over tables of size 0..1000: declared size vs the Lean size model. " + "sqlx: generated queries of the supported fragment over t1(a PK, b, c, d, e nullable), t2(a, f, g), t3(k unique, h, w unique float): projections with scalar expressions (arithmetic, abs, CASE, greatest, coalesce, upper), WHERE (comparisons, IN, AND/OR, text equality), DISTINCT, total ORDER BY with LIMIT/OFFSET, aggregations (sum/count/avg/min/max/count distinct, mixed aggregate-scalar items) grouped by column / expression, HAVING, INNER/LEFT/RIGHT/FULL joins ON (also disjunctions of equalities), USING, NATURAL, derived tables, CTEs, diamonds (one sub-query on both sides of a join or set operation, single- and multi-stage), UNION/UNION ALL/INTERSECT/EXCEPT, functions of unique columns, aliases that shadow input columns in GROUP BY / ORDER BY / WHERE / HAVING, shadowed table names, multi-branch CASE with overlapping conditions, the math and text functions the reader declares (sqrt, exp, ln, log2, log10, sin, cos, tan, round, trunc, sign, pow, lower, substr, ltrim, rtrim, ||, char_length, concat with 1..4 arguments), BETWEEN / LIKE / IS NULL / NOT predicates, projections of random() and of functions of it (executed with a seeded stream of distinct draws, not compared with the original); x conforming database instances (empty tables, boundary values, NULLs, duplicate and unmatched join keys, unique keys distinct); the relation rendered by the library is executed on SQLite next to the original text; non-trivial = non-empty result",
         "trusted_base": COMMON_TRUST + ["SQLite 3.40 + harness shims as executor of the rendered relation"],
         "assumptions": ["SQLite semantics (type affinity, integer division, NULL ordering) only where the generated fragment exercises them", "column types are checked by execution only; the Lean part covers row counts"],
         "technique": "Lean 4 proof (size lemmas for filter/offset/limit, set operations, inner joins with product and unique-key bounds; kernel-checked counterexample for outer joins) + correspondence of declared sizes with the model + execution oracle (cells in declared types, row counts in declared sizes)",
-        "level_text": "Theorems (Props/C07.lean) for bags of any size: |LIMIT l OFFSET o of a filtered bag| ≤ min(l, max − o); UNION/INTERSECT/EXCEPT bounds; inner join ≤ |L|·|R| and ≤ max(|L|,|R|) when a join key is unique; left outer join ≤ |L|·|R| + |L| with a counterexample to the bound the code declares. Declared sizes of builder-made nodes equal the model's; generated queries are executed on SQLite and every cell / row count is checked against the declared schema / size.",
+        "level_text": "Theorem C07Tree.sound / size_sound (Props/C07Tree.lean): for EVERY tree of tables, maps (projection, WHERE, OFFSET, LIMIT), inner joins on a key equality, UNION [ALL], INTERSECT, EXCEPT and GROUP BY … count(*), and every database whose tables respect their declared sizes and UNIQUE columns, the result has at most sizeMax rows — sizeMax being the function compared line by line with the size the real compiler declares (stream reltree). Theorems (Props/C07.lean) for bags of any size: |LIMIT l OFFSET o of a filtered bag| ≤ min(l, max − o); UNION/INTERSECT/EXCEPT bounds; inner join ≤ |L|·|R| and ≤ max(|L|,|R|) when a join key is unique; left outer join ≤ |L|·|R| + |L| with a counterexample to the bound the code declares. Declared sizes of builder-made nodes equal the model's; generated queries are executed on SQLite and every cell / row count is checked against the declared schema / size.",
         "level_note": "Trusted: Lean kernel; SQLite and shims. Modelled, not verified: column type propagation through relations (execution oracle; the expression-level part is C06/C10).",
     },
     "C14": {
-        "lean_modules": ["QrlewModel.Props.C14"],
+        "lean_modules": ["QrlewModel.Props.C14", "QrlewModel.Props.C07Tree"],
         "streams": [
             {"name": "sqlx", "n_quick": 30000, "n_thorough": 1500000, "compare": False, "min_per_proc": 500},
             {"name": "values", "n_quick": 6000, "n_thorough": 300000, "compare": True, "min_per_proc": 1000},
+            {"name": "reltree", "n_quick": 4000, "n_thorough": 150000, "compare": True, "min_per_proc": 200},
         ],
-        "rule": "values: literal value lists (1..6 integers / texts / floats drawn from pools of 1..7 values, so repeated values are adjacent in some lists and apart in others) built with the Values builder, alone and inner-joined to t3 on its unique key: declared-unique flag compared with the Lean model valuesUnique, executed rows checked against the declared constraints; sqlx: generated queries of the supported fragment over t1(a PK, b, c, d, e nullable), t2(a, f, g), t3(k unique, h, w unique float): projections with scalar expressions (arithmetic, abs, CASE, greatest, coalesce, upper), WHERE (comparisons, IN, AND/OR, text equality), DISTINCT, total ORDER BY with LIMIT/OFFSET, aggregations (sum/count/avg/min/max/count distinct, mixed aggregate-scalar items) grouped by column / expression, HAVING, INNER/LEFT/RIGHT/FULL joins ON, USING, NATURAL, derived tables, CTEs, UNION/UNION ALL/INTERSECT/EXCEPT, functions of unique columns; x conforming database instances (empty tables, boundary values, NULLs, duplicate and unmatched join keys, unique keys distinct); the relation rendered by the library is executed on SQLite next to the original text; non-trivial = non-empty result",
+        "rule": "reltree (model ≡ implementation): random trees of depth ≤ 3 (map with projections through -x / abs / x + k, WHERE, LIMIT / OFFSET; inner join on a key equality; UNION [ALL], INTERSECT, EXCEPT; GROUP BY one or two keys with count(*)) over three tables with declared sizes and UNIQUE columns, written as a chain of CTEs and compiled by the real reader: the declared size bound and UNIQUE flags of the result are compared with Qrlew.RelTree.sizeMax / uniq, the rows SQLite returns for the rendered relation with Qrlew.RelTree.eval (rows are not compared under LIMIT / OFFSET); on the implementation itself: row count ≤ declared size, flagged columns duplicate-free. values: literal value lists (1..6 integers / texts / floats drawn from pools of 1..7 values, so repeated values are adjacent in some lists and apart in others) built with the Values builder, alone and inner-joined to t3 on its unique key: declared-unique flag compared with the Lean model valuesUnique, executed rows checked against the declared constraints; sqlx: generated queries of the supported fragment over t1(a PK, b, c, d, e nullable), t2(a, f, g), t3(k unique, h, w unique float): projections with scalar expressions (arithmetic, abs, CASE, greatest, coalesce, upper), WHERE (comparisons, IN, AND/OR, text equality), DISTINCT, total ORDER BY with LIMIT/OFFSET, aggregations (sum/count/avg/min/max/count distinct, mixed aggregate-scalar items) grouped by column / expression, HAVING, INNER/LEFT/RIGHT/FULL joins ON, USING, NATURAL, derived tables, CTEs, UNION/UNION ALL/INTERSECT/EXCEPT, functions of unique columns; x conforming database instances (empty tables, boundary values, NULLs, duplicate and unmatched join keys, unique keys distinct); the relation rendered by the library is executed on SQLite next to the original text; non-trivial = non-empty result",
         "trusted_base": COMMON_TRUST + ["SQLite 3.40 + harness shims as executor"],
         "assumptions": ["base tables honour their declared unique / primary-key constraints (generated that way)"],
         "technique": "Lean 4 proof (uniqueness is preserved by functions injective on the values, by filters, and by inner joins whose other side has a unique key; kernel-checked counterexample for lossy casts; a literal list is flagged unique iff it has no repeated value) + execution oracle on columns declared unique",
-        "level_text": "Theorems (Props/C14.lean) for bags of any size: a column stays duplicate-free under projection through any function injective on its values, under filters, and on the left side of an inner join whose right join key is unique; ⌊1.2⌋ = ⌊1.4⌋ shows a lossy cast is not such a function. Generated queries (incl. functions of unique columns, group-by keys, joins) are executed on SQLite and every column the relation declares unique is checked for duplicates.",
+        "level_text": "Theorem C07Tree.unique_sound (Props/C07Tree.lean): for EVERY tree of tables, maps, inner joins, set operations and reduces and every conforming database, each output column the model flags UNIQUE holds pairwise distinct values — the flags (through listed bijections only; left columns of a join when the right key is unique and vice versa; none through set operations; a grouping key when it is the only key or unique in the input) being compared line by line with the constraints the real compiler declares (stream reltree). Theorems (Props/C14.lean) for bags of any size: a column stays duplicate-free under projection through any function injective on its values, under filters, and on the left side of an inner join whose right join key is unique; ⌊1.2⌋ = ⌊1.4⌋ shows a lossy cast is not such a function. Generated queries (incl. functions of unique columns, group-by keys, joins) are executed on SQLite and every column the relation declares unique is checked for duplicates.",
         "level_note": "Trusted: Lean kernel; SQLite and shims. Modelled, not verified: which functions the code lists as bijections is observed through execution (no translator for that list).",
     },
     "C16": {
